@@ -48,6 +48,7 @@ func NormalizeLoops(fns []*Function, opt UnrollOptions) []string {
 			continue
 		}
 		changed := false
+		threadAfter := false
 		for n := 0; n < opt.MaxLoops; n++ {
 			note, ok := unrollOne(f, opt)
 			if !ok {
@@ -67,7 +68,7 @@ func NormalizeLoops(fns []*Function, opt UnrollOptions) []string {
 		} else if opt.StructCopies != nil && opt.StructCopies(f) && hasLocalStructCopy(f) {
 			// a struct value handed from one local to another (the result of an inlined accessor that returns a
 			// small struct, a value receiver): per-field copies, which the forwarding below resolves
-			scalarizeStructCopies(f)
+			threadAfter = scalarizeStructCopies(f)
 		}
 		if k := forwardAggregates(f); k > 0 {
 			notes = append(notes, fmt.Sprintf("%s: %d load(s) of local table entries replaced by the stored values", f.String(), k))
@@ -75,6 +76,28 @@ func NormalizeLoops(fns []*Function, opt UnrollOptions) []string {
 			rebuild(f)
 			simplifyPhis(f)
 			removeDeadAggregates(f)
+		}
+		if threadAfter {
+			// the merge an inlined call left behind can be threaded now that its struct result is a set of
+			// per-field φ-nodes and the caller's copy is gone: k: φ..., e = φ(nil | errors); if e != nil
+			for again, n := true, 0; again && n < 16; n++ {
+				again = false
+				for _, b := range f.Blocks {
+					if debugUnroll && len(b.Preds) >= 2 {
+						if _, isIf := b.Instrs[len(b.Instrs)-1].(*If); isIf {
+							fmt.Fprintf(os.Stderr, "thread? %s block %d (%d instrs)\n", f.Name(), b.Index, len(b.Instrs))
+						}
+					}
+					if threadNilTest(f, b) {
+						rebuild(f)
+						simplifyPhis(f)
+						removeUnusedPhis(f)
+						removeDeadAggregates(f)
+						again = true
+						break
+					}
+				}
+			}
 		}
 		if changed && hasLiftableAlloc(f) {
 			// locals whose address was only taken to be put into a table that is gone now
@@ -495,6 +518,44 @@ func unrollOne(f *Function, opt UnrollOptions) (string, bool) {
 	return "", false
 }
 
+// removeUnusedPhis drops φ-nodes nothing refers to (the per-field results of an inlined helper on the side of the
+// merge that only returns the error), repeatedly.
+func removeUnusedPhis(f *Function) {
+	for n := 0; n < 8; n++ {
+		changed := false
+		for _, b := range f.Blocks {
+			var out []Instruction
+			for _, ins := range b.Instrs {
+				if p, ok := ins.(*Phi); ok && (p.Referrers() == nil || len(*p.Referrers()) == 0) {
+					changed = true
+					continue
+				}
+				// loads of a local's fields that only fed such a φ, and the field addresses they used
+				if ld, ok := ins.(*UnOp); ok && ld.Op == token.MUL && (ld.Referrers() == nil || len(*ld.Referrers()) == 0) {
+					if fa, ok := ld.X.(*FieldAddr); ok {
+						if _, isLocal := fa.X.(*Alloc); isLocal {
+							changed = true
+							continue
+						}
+					}
+				}
+				if fa, ok := ins.(*FieldAddr); ok && (fa.Referrers() == nil || len(*fa.Referrers()) == 0) {
+					if _, isLocal := fa.X.(*Alloc); isLocal {
+						changed = true
+						continue
+					}
+				}
+				out = append(out, ins)
+			}
+			b.Instrs = out
+		}
+		if !changed {
+			return
+		}
+		rebuild(f)
+	}
+}
+
 // hasLocalStructCopy: some whole-struct load from a local is stored into another local.
 func hasLocalStructCopy(f *Function) bool {
 	for _, b := range f.Blocks {
@@ -505,6 +566,11 @@ func hasLocalStructCopy(f *Function) bool {
 			}
 			if _, isLocal := st.Addr.(*Alloc); !isLocal {
 				continue
+			}
+			if ph, isPhi := st.Val.(*Phi); isPhi {
+				if _, isStruct := ph.Type().Underlying().(*types.Struct); isStruct {
+					return true
+				}
 			}
 			ld, ok := st.Val.(*UnOp)
 			if !ok || ld.Op != token.MUL {
@@ -1709,8 +1775,195 @@ func appendChainElems(v Value, depth int) ([]Value, bool) {
 // scalarizeStructCopies rewrites `*dst = *src` for small struct types into one load/store pair per field, so
 // that a table entry copied into a local (`entry := table[i]`) is still a set of independent cells for
 // forwardAggregates.
-func scalarizeStructCopies(f *Function) bool {
+// scalarizeStructPhiCopies handles `*dst = φ(*src, *src, ...)`: a struct value returned by an inlined helper with
+// several returns (each return loads the helper's local at the end of its block) and assigned to a local of the
+// caller. It becomes one φ per field over per-field loads taken where the whole-struct loads were, and per-field
+// stores, so that forwardAggregates can resolve each field on each path.
+func scalarizeStructPhiCopies(f *Function) bool {
 	any := false
+	for _, b := range f.Blocks {
+		for si, ins := range b.Instrs {
+			st, ok := ins.(*Store)
+			if !ok {
+				continue
+			}
+			ph, ok := st.Val.(*Phi)
+			if !ok {
+				continue
+			}
+			if debugUnroll {
+				fmt.Fprintf(os.Stderr, "structphi %s: store of phi %s blockSame=%v refs=%d\n", f.Name(), ph.Name(), ph.Block() == b, len(*ph.Referrers()))
+			}
+			if ph.Block() != b || ph.Referrers() == nil || len(*ph.Referrers()) != 1 {
+				continue
+			}
+			stt, ok := ph.Type().Underlying().(*types.Struct)
+			if !ok || stt.NumFields() == 0 || stt.NumFields() > 12 {
+				continue
+			}
+			switch st.Addr.(type) {
+			case *FieldAddr, *Alloc:
+			default:
+				continue
+			}
+			if len(ph.Edges) != len(b.Preds) {
+				continue
+			}
+			okAll := true
+			loads := make([]*UnOp, len(ph.Edges))
+			for i, e := range ph.Edges {
+				ld, ok := e.(*UnOp)
+				if !ok || ld.Op != token.MUL || ld.Block() != b.Preds[i] || ld.Referrers() == nil || len(*ld.Referrers()) != 1 {
+					okAll = false
+					break
+				}
+				if _, isLocal := ld.X.(*Alloc); !isLocal {
+					okAll = false
+					break
+				}
+				// nothing between the load and the end of its block may write memory
+				after := false
+				for _, i2 := range ld.Block().Instrs {
+					if i2 == Instruction(ld) {
+						after = true
+						continue
+					}
+					if !after {
+						continue
+					}
+					switch y := i2.(type) {
+					case *Store:
+						// a store elsewhere cannot reach the helper's local when its address never escapes
+						src := ld.X.(*Alloc)
+						if !allocPrivate(src) || y.Addr == Value(src) {
+							okAll = false
+						}
+						if fa, isFA := y.Addr.(*FieldAddr); isFA && fa.X == Value(src) {
+							okAll = false
+						}
+					case *MapUpdate, *Defer, *Go, *Send:
+						okAll = false
+					case *Call:
+						// calls after the load (building an error value) cannot reach the helper's local:
+						// its address does not escape when every use is a field address or a whole load
+						if !allocPrivate(ld.X.(*Alloc)) {
+							okAll = false
+						}
+					}
+				}
+				loads[i] = ld
+			}
+			if debugUnroll {
+				fmt.Fprintf(os.Stderr, "structphi %s: okAll=%v\n", f.Name(), okAll)
+			}
+			if !okAll {
+				continue
+			}
+			// per-field loads in the predecessors
+			fieldLoads := make([][]Value, stt.NumFields())
+			for i, ld := range loads {
+				pb := ld.Block()
+				var out []Instruction
+				for _, i2 := range pb.Instrs {
+					if i2 != Instruction(ld) {
+						out = append(out, i2)
+						continue
+					}
+					for j := 0; j < stt.NumFields(); j++ {
+						ft := stt.Field(j).Type()
+						sa := &FieldAddr{X: ld.X, Field: j}
+						sa.setType(types.NewPointer(ft))
+						sa.setBlock(pb)
+						lv := &UnOp{Op: token.MUL, X: sa}
+						lv.setType(ft)
+						lv.setBlock(pb)
+						out = append(out, sa, lv)
+						fieldLoads[j] = append(fieldLoads[j], lv)
+					}
+				}
+				pb.Instrs = out
+				_ = i
+			}
+			// per-field φ-nodes and stores
+			var phis []Instruction
+			var stores []Instruction
+			for j := 0; j < stt.NumFields(); j++ {
+				ft := stt.Field(j).Type()
+				np := &Phi{Edges: fieldLoads[j], Comment: ph.Comment}
+				np.setType(ft)
+				np.setBlock(b)
+				phis = append(phis, np)
+				da := &FieldAddr{X: st.Addr, Field: j}
+				da.setType(types.NewPointer(ft))
+				da.setBlock(b)
+				ns := &Store{Addr: da, Val: np}
+				ns.setBlock(b)
+				stores = append(stores, da, ns)
+			}
+			var out []Instruction
+			for k, i2 := range b.Instrs {
+				if i2 == Instruction(ph) {
+					out = append(out, phis...)
+					continue
+				}
+				if k == si {
+					out = append(out, stores...)
+					continue
+				}
+				out = append(out, i2)
+			}
+			b.Instrs = out
+			any = true
+			break // the block changed: look at it again on the next call
+		}
+	}
+	if any {
+		rebuild(f)
+	}
+	return any
+}
+
+// allocPrivate: the address of a is used only to address its fields or to load / store it whole.
+func allocPrivate(a *Alloc) bool {
+	if a.Referrers() == nil {
+		return false
+	}
+	for _, r := range *a.Referrers() {
+		switch x := r.(type) {
+		case *FieldAddr:
+			if x.Referrers() != nil {
+				for _, r2 := range *x.Referrers() {
+					switch y := r2.(type) {
+					case *UnOp:
+					case *Store:
+						if y.Addr != Value(x) {
+							return false
+						}
+					default:
+						return false
+					}
+				}
+			}
+		case *UnOp:
+		case *Store:
+			if x.Addr != Value(a) {
+				return false
+			}
+		case *DebugRef:
+		default:
+			return false
+		}
+	}
+	return true
+}
+
+func scalarizeStructCopies(f *Function) bool {
+	anyPhi := false
+	for n := 0; n < 8 && scalarizeStructPhiCopies(f); n++ {
+		anyPhi = true
+	}
+	any := false
+	defer func() { _ = anyPhi }()
 	for _, b := range f.Blocks {
 		var out []Instruction
 		changed := false
@@ -1775,7 +2028,7 @@ func scalarizeStructCopies(f *Function) bool {
 	if any {
 		rebuild(f)
 	}
-	return any
+	return any || anyPhi
 }
 
 // scalarizeArrayValueReads rewrites `v := *arr; ... v[k]` (a whole-array load of a local array that is only
